@@ -5,6 +5,7 @@ import ast
 
 from sa import astutil as A
 from sa import cfg as C
+from sa import dataflow as D
 from sa import surface as S
 from sa.index import AnalysisError
 from sa.rules import c08
@@ -19,7 +20,7 @@ EXPLANATION = (
     'handler derives state from the rebound field; (d) FieldUpdate payload '
     'def-use; (e) completeness of the ancestor walk.  Exactly-once / ordering '
     'for arbitrary batches is not decided.')
-FLOORS = {'C09.a': 20, 'C09.b': 5, 'C09.c': 4, 'C09.d': 2, 'C09.e': 3, 'C09.f': 8}
+FLOORS = {'C09.a': 10, 'C09.b': 2, 'C09.c': 2, 'C09.d': 1, 'C09.e': 1, 'C09.f': 4}
 FILES = c08.FILES + ['pyglove/ext/evolution/recombinators.py',
                      'pyglove/ext/evolution/mutators.py',
                      'pyglove/core/geno/base.py', 'pyglove/core/geno/categorical.py']
@@ -152,7 +153,7 @@ def memo_fields(ctx):
 def rule_b(ctx):
   idx = ctx.index
   memos = memo_fields(ctx)
-  if len(memos) < 3:
+  if len(memos) < 2:
     raise AnalysisError(f'only {len(memos)} memo fields discovered: {sorted(memos)}')
   f = idx.func(S.SYMBOLIC + '.' + NOTIFY)
   g = C.cfg_of(f.node)
@@ -332,7 +333,14 @@ def rule_d(ctx):
     if cls_fq == S.DICT:
       tdefs = [n for n in ast.walk(f.node) if isinstance(n, ast.Assign)
                and 'target' in A.assigned_names(n.targets[0])]
-      vals = sorted(A.unparse(t.value) for t in tdefs)
+      leaves = set()
+      for t in tdefs:
+        v = t.value
+        if isinstance(v, ast.IfExp):
+          leaves |= {A.unparse(v.body), A.unparse(v.orelse)}
+        else:
+          leaves.add(A.unparse(v))
+      vals = sorted(leaves)
       if vals != ['self', 'self.sym_parent']:
         problems.append(f'update target candidates are {vals}')
     ctx.ob('C09.d', f.fq, not problems,
@@ -340,43 +348,68 @@ def rule_d(ctx):
            'the write and the value actually stored', f.loc, '; '.join(problems))
 
 
+def _resolve_local(fn, expr, depth=3):
+  """Follow a Name through its single local definition (temporaries)."""
+  while isinstance(expr, ast.Name) and depth > 0:
+    ds = [v for _, v in D.defs_of(fn, expr.id) if v is not None]
+    if len(ds) != 1:
+      break
+    expr = ds[0]
+    depth -= 1
+  return expr
+
+
 def rule_e(ctx):
   idx = ctx.index
   f = idx.func(S.SYMBOLIC + '.' + NOTIFY)
-  g = C.cfg_of(f.node)
   whiles = [n for n in ast.walk(f.node) if isinstance(n, ast.While)]
   problems = []
+  walk_var = None
   if len(whiles) != 1:
     problems.append(f'{len(whiles)} while loops (expected the one ancestor walk)')
   else:
     w = whiles[0]
-    if A.unparse(w.test) != 'target is not None':
-      problems.append(f'ancestor walk condition is `{A.unparse(w.test)}`')
-    adv = [s for s in w.body if isinstance(s, ast.Assign) and A.assigned_names(s.targets[0]) == ['target']]
-    if len(adv) != 1 or A.unparse(adv[0].value) != 'target.sym_parent':
-      problems.append('loop variable not advanced by `target = target.sym_parent` exactly once')
-    if adv and w.body[-1] is not adv[0]:
-      problems.append('advance is not the last statement of the walk')
+    t = w.test
+    if (isinstance(t, ast.Compare) and isinstance(t.left, ast.Name) and isinstance(t.ops[0], ast.IsNot)
+        and A.unparse(t.comparators[0]) == 'None'):
+      walk_var = t.left.id
+    else:
+      problems.append(f'ancestor walk condition is `{A.unparse(t)}`, not `<node> is not None`')
+    if walk_var:
+      adv = [s_ for s_ in w.body if isinstance(s_, ast.Assign) and A.assigned_names(s_.targets[0]) == [walk_var]]
+      if len(adv) != 1 or A.unparse(adv[0].value) != f'{walk_var}.sym_parent':
+        problems.append('the walk variable is not advanced exactly once by `<node> = <node>.sym_parent`')
+      elif w.body[-1] is not adv[0]:
+        problems.append('advance is not the last statement of the walk')
+      # registration: the first statement passes the node to the registry helper
+      first = w.body[0]
+      reg = [c for c in A.calls_in(first) if any(isinstance(a, ast.Name) and a.id == walk_var for a in c.args)]
+      if not reg:
+        problems.append('the node is not registered as the first step of each iteration')
+      # any other assignment to the walk variable inside the loop skips ancestors
+      if len([s_ for s_ in ast.walk(w) if isinstance(s_, ast.Assign) and walk_var in A.assigned_names(s_.targets[0])]) != 1:
+        problems.append('the walk variable is assigned more than once inside the walk')
     if any(isinstance(n, (ast.Break, ast.Continue, ast.Return)) for n in ast.walk(w)):
       problems.append('ancestor walk can stop early')
-    # registration on every iteration: first statement registers the target
-    reg = [s for s in w.body if any('_get_target_updates' == (A.call_name(c) or '') for c in A.calls_in(s))]
-    if not reg or reg[0] is not w.body[0]:
-      problems.append('target registration is not the first step of each iteration')
   ctx.ob('C09.e', f.fq + '#ancestor-walk', not problems,
          'every sym_parent up to None is registered for notification', f.loc,
          '; '.join(problems))
   # walk starts from update.target for each update
-  fors = [n for n in ast.walk(f.node) if isinstance(n, ast.For) and A.unparse(n.iter) == 'field_updates']
-  ok = bool(fors) and any(isinstance(s, ast.Assign) and A.unparse(s.value) == f'{A.unparse(fors[0].target)}.target'
-                          for s in fors[0].body) and not any(
-                              isinstance(n, (ast.Break, ast.Continue, ast.Return)) for n in ast.walk(fors[0]))
+  ups = f.node.args.args[1].arg if len(f.node.args.args) > 1 else 'field_updates'
+  fors = [n for n in ast.walk(f.node) if isinstance(n, ast.For) and A.unparse(n.iter) == ups]
+  ok = False
+  if fors and walk_var:
+    lv = A.unparse(fors[0].target)
+    ok = any(isinstance(s_, ast.Assign) and A.assigned_names(s_.targets[0]) == [walk_var]
+             and A.unparse(s_.value) == f'{lv}.target' for s_ in fors[0].body) and not any(
+                 isinstance(n, (ast.Break, ast.Continue, ast.Return)) for n in ast.walk(fors[0]))
   ctx.ob('C09.e', f.fq + '#per-update', ok,
          'the walk is started from the target of every update in the batch', f.loc,
          'per-update loop changed shape')
-  # dispatch loop: only early stop is the notify_parents break after self
+  # dispatch loop: the loop whose body calls <x>._on_change
   problems = []
-  dl = [n for n in ast.walk(f.node) if isinstance(n, ast.For) and 'per_target_updates' in A.unparse(n.iter)]
+  dl = [n for n in ast.walk(f.node) if isinstance(n, ast.For)
+        and any((A.call_name(c) or '').endswith('._on_change') for c in A.calls_in(n))]
   if not dl:
     problems.append('dispatch loop vanished')
   else:
@@ -387,15 +420,19 @@ def rule_e(ctx):
     for n in ast.walk(d):
       if isinstance(n, ast.If) and any(isinstance(x, ast.Break) for x in ast.walk(n)):
         t = A.unparse(n.test)
-        if 'target is self' not in t or 'not notify_parents' not in t:
+        if 'is self' not in t or 'not notify_parents' not in t:
           problems.append(f'early stop condition is `{t}`')
-        # placed after the _on_change call
         idx_if = d.body.index(n) if n in d.body else -1
-        idx_oc = max((i for i, s in enumerate(d.body) if A.has_call(s, lambda x: x.endswith('._on_change'))), default=-1)
+        idx_oc = max((i for i, s_ in enumerate(d.body) if A.has_call(s_, lambda x: x.endswith('._on_change'))), default=-1)
         if idx_oc < 0 or idx_if < idx_oc:
           problems.append('early stop precedes the _on_change call')
-    if 'reverse=True' not in A.unparse(d.iter, 400) or 'sym_path' not in A.unparse(d.iter, 400):
-      problems.append('dispatch order is no longer deepest-path-first')
+    it = _resolve_local(f.node, d.iter)
+    ok_order = (isinstance(it, ast.Call) and A.call_name(it) == 'sorted'
+                and isinstance(A.kwarg(it, 'reverse'), ast.Constant) and A.kwarg(it, 'reverse').value is True
+                and isinstance(A.kwarg(it, 'key'), ast.Lambda)
+                and A.unparse(A.kwarg(it, 'key').body).endswith('.sym_path'))
+    if not ok_order:
+      problems.append('dispatch order is no longer deepest-path-first (sorted by sym_path, reverse=True)')
   ctx.ob('C09.e', f.fq + '#dispatch', not problems,
          'targets are dispatched deepest first; the only early stop is the '
          'notify_parents=False break after self was notified', f.loc,
